@@ -189,12 +189,47 @@ impl<'a> JsonTokenizer<'a> {
                 match c {
                     '\\' => result.push('\\'),
                     '"' => result.push('"'),
+                    '/' => result.push('/'),
                     'n' => result.push('\n'),
-                    // 't' => result.push('\t'),
-                    // 'r' => result.push('\r'),
-                    // Add other escape sequences as needed
-                    // _ => result.push(c), // Push the character as is if unknown escape
-                    _ => {}
+                    't' => result.push('\t'),
+                    'r' => result.push('\r'),
+                    'b' => result.push('\u{0008}'),
+                    'f' => result.push('\u{000C}'),
+                    'u' => {
+                        let mut unit = self.read_hex4()?;
+                        // A high surrogate must be followed by an escaped low surrogate.
+                        if (0xD800..0xDC00).contains(&unit) {
+                            if self.read()? != '\\' || self.read()? != 'u' {
+                                return Err(io::Error::new(
+                                    io::ErrorKind::InvalidData,
+                                    "Unpaired surrogate in string escape",
+                                ));
+                            }
+                            let low = self.read_hex4()?;
+                            if !(0xDC00..0xE000).contains(&low) {
+                                return Err(io::Error::new(
+                                    io::ErrorKind::InvalidData,
+                                    "Unpaired surrogate in string escape",
+                                ));
+                            }
+                            unit = 0x10000 + ((unit - 0xD800) << 10) + (low - 0xDC00);
+                        }
+                        match char::from_u32(unit) {
+                            Some(ch) => result.push(ch),
+                            None => {
+                                return Err(io::Error::new(
+                                    io::ErrorKind::InvalidData,
+                                    "Invalid unicode escape in string",
+                                ));
+                            }
+                        }
+                    }
+                    _ => {
+                        return Err(io::Error::new(
+                            io::ErrorKind::InvalidData,
+                            format!("Invalid escape sequence '\\{}' in string", c),
+                        ));
+                    }
                 }
                 escape = false;
             } else if c == '\\' {
@@ -215,6 +250,17 @@ impl<'a> JsonTokenizer<'a> {
                 "Unterminated string",
             ))
         }
+    }
+
+    fn read_hex4(&mut self) -> io::Result<u32> {
+        let mut value: u32 = 0;
+        for _ in 0..4 {
+            let digit = self.read()?.to_digit(16).ok_or_else(|| {
+                io::Error::new(io::ErrorKind::InvalidData, "Invalid unicode escape in string")
+            })?;
+            value = value * 16 + digit;
+        }
+        Ok(value)
     }
 
     fn read_until_separator(&mut self) -> io::Result<String> {
